@@ -237,6 +237,22 @@ fn gen_c07(tier: &str, rng: &mut Rng, emit: &mut dyn FnMut(Op)) {
     emit_ops(emit, &[vec![7u8, 0u8]]);
     emit_ops(emit, &[vec![6u8, 0u8]]);
     emit_ops(emit, &[vec![7u8, 0u8], call_set(0, &Val::S("x".into())), vec![6u8, 0u8], vec![5u8, 0u8]]);
+    // every text variable holds ANY text: values that look like something another module parses
+    // (digest lines, dependencies, paths, patterns, sizes) are stored, printed and read back verbatim
+    for v in 0..23 {
+        for val in ["sha1 a4801e9b26eeb5b8bd1f54bac1c8e89dec67786a", "BLAKE2S abc", "Sha256 x", "md5 0", "SHA1", "rmd160  two  blanks",
+            "mutt-[0-9]*:../../mail/mutt", "a>=1:../../c/d", "../../pkgtools/testpkg", "a/b/", "foo-[0-9", "gcc}-4.8", "old<1>0",
+            "foo-1.0.tgz", "\"quoted\"", "'q'", "IGNORE", "$NetBSD$", "007", "+5", "1e3", " lead", "trail ", "x\u{a0}"] {
+            match KINDS[v] {
+                0 => emit_ops(emit, &[call_set(v, &Val::S(val.into()))]),
+                2 => {
+                    emit_ops(emit, &[call_push(v, val), call_push(v, "second")]);
+                    emit_ops(emit, &[call_set(v, &Val::A(vec![val.into()]))]);
+                }
+                _ => {}
+            }
+        }
+    }
     // every variable alone, set and (for arrays) pushed: both name tables, all 23 rows
     for v in 0..23 {
         let val = match KINDS[v] {
